@@ -38,7 +38,7 @@ DECIDING = ['tcpcl.session:ContactHandler.is_sess_idle', 'tcpcl.session:ContactH
             'tcpcl.agent:Agent.shutdown', 'tcpcl.agent:Agent.connect', 'udpcl.agent:Agent._add_rx_item',
             'udpcl.agent:Agent._recv_ext_map']
 REQUIRED_OBS = ['runs', 'signals_checked', 'returns_checked', 'invariant_evaluations', 'idle_true_checked', 'pops_checked',
-                'agent_scenarios', 'udpcl_datagrams', 'refuse_signals']
+                'agent_scenarios', 'udpcl_datagrams', 'refuse_signals', 'agent_transfers_checked', 'tls_param_reports']
 
 
 class Shadow(object):
